@@ -312,7 +312,7 @@ def parseFvG (h : HooksG) (inner : Inner) : Nat → Bytes → Nat → Bool → S
     | .error _ => err
     | .ok st =>
     if length > data.length then err else do
-    let hasExt : Bool := eho ≠ 0 ∧ length ≥ 20 ∧ eho < length - 20
+    let hasExt : Bool := eho ≠ 0 ∧ length ≥ 20 ∧ eho ≤ length - 20
     let (fvName, ehs) ← (
       if hasExt then do
         let eb ← sliceFromG "NewFirmwareVolume: data[fv.ExtHeaderOffset:]" data eho
